@@ -18,6 +18,7 @@ VERIF = os.path.dirname(os.path.dirname(os.path.abspath(__file__)))
 REPO = os.environ.get("NPS_REPO", "/repo")
 LEAN_DIR = os.environ.get("VERIF_LEAN_DIR") or os.path.join(VERIF, "lean")      # (evaluation tooling may point this at a copy)
 OUT_DIR = os.environ.get("VERIF_OUT_DIR") or VERIF                                  # evidence/ and replays/ live here
+BRIDGE_MODULE = {"ht_mod": "ht_hash"}      # kernels whose bridge lemma is stated in another kernel's bridge module
 DRIVER = os.path.join(LEAN_DIR, ".lake", "build", "bin", "driver")
 ALLOWED_AXIOMS = {"propext", "Classical.choice", "Quot.sound"}
 FORBIDDEN = re.compile(r"\b(sorry|admit|native_decide|bv_decide|implemented_by|unsafe)\b|^\s*axiom\s|maxHeartbeats\s+0")
@@ -200,7 +201,7 @@ def lean_phase(prop_id, modules, kernels=(), tier="quick"):
         # 1. translator (tie 1): /repo source -> Gen/Cur.lean
         tr = translate.regenerate(REPO, LEAN_DIR)
         for k in tr["errors"]:
-            if k["kernel"] in kernels or not kernels:
+            if k["kernel"] in kernels:      # a kernel this property's model does not use is none of its business
                 st.broken.append({"kind": "translator", **k})
         # 2. build: Cur, then bridges, then the property's theorems, then the driver
         rc, out = lake(["build", "NpsVerif.Gen.Cur"])
@@ -233,6 +234,8 @@ def lean_phase(prop_id, modules, kernels=(), tier="quick"):
                                   "examples": bad[:3]})
         bridge_broken = set()
         for k in kernels:
+            if BRIDGE_MODULE.get(k, k) != k:
+                continue                    # its bridge lemma lives in another kernel's module (listed as well)
             mod = f"NpsVerif.Gen.Bridge.{k}"
             rc, out = lake(["build", mod])
             st.log += out
@@ -253,7 +256,7 @@ def lean_phase(prop_id, modules, kernels=(), tier="quick"):
             hits = forbidden_token_scan()
             if hits:
                 raise InfraError("forbidden tokens in Lean sources:\n" + "\n".join(hits))
-            audit_mods = list(modules) + [f"NpsVerif.Gen.Bridge.{k}" for k in kernels]
+            audit_mods = list(modules) + sorted({f"NpsVerif.Gen.Bridge.{BRIDGE_MODULE.get(k, k)}" for k in kernels})
             rc, out = _run(["lake", "env", "lean", "--run", "Audit.lean"] + audit_mods, cwd=LEAN_DIR)
             if rc != 0:
                 raise InfraError("axiom audit failed:\n" + out[-3000:])
